@@ -16,8 +16,9 @@ CLAIMED = {
              "path on the SAME symbolic random stream (the k-th draw of both is the same solver term), the second one either on the same objects (same "
              "process, one after the other) or on a freshly extracted grammar whose classes have a different, symbolically chosen hash order so that the "
              "repository's own sets of classes iterate differently (another process); the sequences of programs handed to the fitness function and the "
-             "returned best / fitness must be structurally identical on every path. Path trees exhausted. Bounds: budgets <= 3 (thorough 4), population 2, "
-             "4-class fixture (24 orders, 3 in the quick tier), depth <= 2; real allocator / ASLR / import-order effects outside.",
+             "returned best / fitness must be structurally identical on every path. The variation operators are also run on their own (create two genotypes, cross over, map; stack: map) under permuted hashes on a "
+             "second fixture with two abstract symbols whose refinement objects have harness-chosen hashes too. Path trees exhausted. Bounds: budgets <= 3 (thorough 4), "
+             "population 2, 4-class / 6-class fixtures (3 hash orders in the quick tier), depth <= 2; real allocator / ASLR / import-order effects outside.",
         design_ref="DESIGN.md section 4 (C08)",
     ),
     "C04": dict(
@@ -27,7 +28,8 @@ CLAIMED = {
              "refinement-satisfying programs of depth <= d): reached == L_d for grow, == the programs of L_d all of whose branches end at depth d for "
              "FullInitializer, subset of L_d for PI-grow, and every single reached program is checked for membership on its own path. This is model "
              "enumeration (exhaustive: true), not one for-all query; a missing program is re-established by a concrete enumeration of every draw "
-             "sequence. Bounds: d <= 3, |L_d| up to a few hundred, corpus of six finite-choice grammars.",
+             "sequence. Bounds: d <= 3, |L_d| up to a few hundred, corpus of eight hand-written finite-choice grammars plus a strided sample of a generated family of "
+             "1728 hierarchies (members with |L_3| <= 30).",
         design_ref="DESIGN.md section 4 (C04)",
         technique="all-models enumeration by exhausting the symbolic path tree of the real creation code (CrossHair/z3) vs an independent language enumerator",
     ),
@@ -37,20 +39,22 @@ CLAIMED = {
              "and usable sub-grammar are compared with an independent least-fixpoint analysis of the class declarations; the inner quantifiers are "
              "discharged by the solver on the real create_node driven by a decider that may pick ANY alternative: every derivation up to depth min+1 "
              "(thorough min+2) is at least as deep as the reported minimum, a derivation of exactly the reported minimum exists (witness replayed), every "
-             "symbol reported recursive has a derivation that expands it again (witness) and the others have none up to depth 3-4. Bounded by the corpus "
-             "and those depths; default counting mode.",
+             "symbol reported recursive has a derivation that expands it again (witness) and the others have none up to depth 3-4. The tables are also compared on the grammars shipped with the repository and on every member of a generated family of 1728 "
+             "hierarchies (every third in the quick tier), in both counting modes - that part is plain enumeration of hierarchies with a concrete comparison. "
+             "Bounded by the corpus and those depths.",
         design_ref="DESIGN.md section 4 (C05)",
     ),
     "C19": dict(
-        text="Engine B: the numeric part of the current source of Grammar.update_weights is interpreted into z3 Real terms with every production weight "
-             "a symbolic real >= 0 (each rule with positive total) for rule structures of 1-4 productions, two rules and the nested structure of the "
-             "weighted fixture: non-negativity, sum-to-one per rule, cross-multiplied ratio preservation and f(f(w)) == f(w) are each discharged as unsat "
-             "(nonlinear real arithmetic); the encoding is validated against the real extraction on real classes, and repeated real extraction is "
-             "compared concretely. Engine A: ProgressivelyTerminalDecider and the weighted choice used by the stack mapper run over the weighted grammar "
+        text="Engine B: the current source of Grammar.get_weights and of the WHOLE of Grammar.update_weights (normalisation, write-back into the class "
+             "declarations, re-initialisation) is interpreted over real classes whose declared weights are z3 Reals >= 0 (each rule with positive total), "
+             "for rule structures of 1-4 productions, two rules, two- and three-level nesting and every listed subset of productions carrying a declaration "
+             "(the others count as weight one), three extractions in a row: non-negativity, sum-to-one per rule, cross-multiplied ratio preservation and "
+             "'the second and third extraction change nothing' are each discharged as unsat (nonlinear real arithmetic); a sat model is replayed by "
+             "extracting real classes declared with the model's weights; the encoding is validated against the real extraction on every run. Engine A: ProgressivelyTerminalDecider and the weighted choice used by the stack mapper run over the weighted grammar "
              "with symbolic draws and depth: the chosen production never has weight 0, and no program created under the weight-aware decider contains the "
-             "zero-weight production. Bounds: rules of <= 4 productions, one nesting level, depth / draw fuel as stated.",
+             "zero-weight production. Bounds: rules of <= 4 productions, <= 3 nesting levels, depth / draw fuel as stated.",
         design_ref="DESIGN.md section 4 (C19)",
-        technique="own AST->z3 encoding of the normalisation kernel over Reals (engine B, NRA unsat per claim) + bounded symbolic execution of the choosers (CrossHair)",
+        technique="own AST->z3 interpretation of update_weights / get_weights over Reals (engine B, NRA unsat per claim, sat models replayed on real classes) + bounded symbolic execution of the choosers (CrossHair)",
     ),
     "C09": dict(
         text="Mutation and crossover of all five representations and every built-in step (elitism, novelty, tournament, lexicase, mutation, crossover, "
